@@ -1,3 +1,11 @@
 """Which properties are claimed, at what level, decided by what."""
-CHECKS = {}
+CHECKS = {
+    "C01": dict(level="exploration", design="DESIGN.md section 4 C01",
+                technique="runtime monitoring: random request histories against the real servers + response-driven reference model audited after every step",
+                text="Held on the recorded histories: after every step of thousands of generated request histories (both front ends, route prefixes, tree-git and "
+                     "bare-git collections, restarts) and of Store-API histories (vdir, bare-git memory/disk, tree-git) every member read back equal to the last "
+                     "acknowledged write, deleted/refused names answered 404 and listings equalled the live set. Unbounded histories cannot be enumerated; a reference-model "
+                     "monitor over many short hostile histories is the strongest decision this family offers.",
+                note="Trusted: the harness's reference model and iCalendar canonicaliser (vf/icl.py); wsgiref-style environ construction; restart = process kill (CLI) or module reload + store-cache clear (WSGI)."),
+}
 NOT_APPLICABLE = {}
